@@ -29,7 +29,7 @@ PKG = core.REPO
 PROPS = {
     "C03": ["NotAhead", "BelongsToBlock", "AppendOnlySuccessor", "EqualsHardcoded",
             "DisputeCommitsHonest", "HonestNotBanned", "HonestNotBannedInFetch", "LiarsBanned",
-            "SelfContradictingLiarBanned"],
+            "SelfContradictingLiarBanned", "BlockProvenLiarBanned"],
 }
 
 ASSUMPTIONS = [
